@@ -773,7 +773,8 @@ class C07(Prop):
             reps = ctx.driver.call("c07.batch", runs=reqs)["runs"]
             model, spec = self.sides(reps, plans, (kind, start, ops))
             impl = self.run_impl(kind, start, ops, steps, presents, tmp, False)
-            return outcome({"steps": impl}, {"steps": model}, {"steps": spec}, features=feats)
+            changing = any(op["op"] in ("add", "remove", "rename") for op in ops)
+            return outcome({"steps": impl}, {"steps": model}, {"steps": spec}, features=feats if changing else [])
         # tree: every successful sequence below the prefix, observed at its end
         alphabet = case["alphabet"]
         nl = len(start["ids"])
